@@ -522,7 +522,7 @@ func TestVerif_C04_SingleWriter(t *testing.T) {
 		c04Replay(t, p)
 		return
 	}
-	vacct.RapidCheck(t, vacct.N(25, 1500), func(rt *rapid.T) {
+	vacct.RapidCheck(t, vacct.N(25, 5000), func(rt *rapid.T) {
 		n := rapid.IntRange(2, 6).Draw(rt, "n")
 		var ops []c04Op
 		for i := 0; i < n; i++ {
@@ -559,7 +559,7 @@ func TestVerif_C04_TwoWriters(t *testing.T) {
 		c04Replay(t, p)
 		return
 	}
-	vacct.RapidCheck(t, vacct.N(25, 1500), func(rt *rapid.T) {
+	vacct.RapidCheck(t, vacct.N(25, 5000), func(rt *rapid.T) {
 		n := rapid.IntRange(2, 7).Draw(rt, "n")
 		var ops []c04Op
 		for i := 0; i < n; i++ {
